@@ -353,6 +353,29 @@ let c10_ingest t =
       else "b" ^ String.concat "" (List.map (fun c -> sb (known !st.core.bk c)) !offered)) ops in
   String.concat " " outs ^ (if !invok then "" else " INV-BROKEN")
 
+(* ---------- C16 ---------- *)
+let c16_uni t =
+  let mine = tz t in let n = ti t in
+  let frames = tlist t n (fun t -> let c = tok t in let v = tz t in
+                           ((if c = "-1" then None else Some (z_of_string c)), v)) in
+  "delivered=" ^ join "," sz (uni_deliver mine frames)
+let c16_serve t =
+  let mine = tz t in let theirs = tz t in
+  match serve_first mine theirs with
+  | FirstState -> "first=state data=1"
+  | FirstRejectDifferentCluster -> "first=reject-different-cluster data=0"
+let c16_members t =
+  let n = ti t in
+  List.mapi (fun i (c, r) -> { mb_id = z_of_small i; mb_cluster = c; mb_ring0 = r })
+    (tlist t n (fun t -> let c = tz t in let r = ti t = 1 in (c, r)))
+let c16_partners t =
+  let mine = tz t in let ms = c16_members t in
+  "contacted=" ^ join "," sz (sync_candidates mine (z_of_small (-1)) ms)
+let c16_bcast t =
+  let mine = tz t in let ms = c16_members t in
+  "contacted=" ^ join "," sz (bcast_allowed mine (z_of_small (-1)) ms) ^
+  " priority=" ^ join "," sz (bcast_priority mine ms)
+
 (* ---------- dispatch ---------- *)
 let handlers : (string * (toks -> string)) list ref = ref [
   "chunks", c08_chunks;
@@ -366,6 +389,10 @@ let handlers : (string * (toks -> string)) list ref = ref [
   "members", c18_members;
   "chk_members", c18_chk;
   "ingest", c10_ingest;
+  "uni", c16_uni;
+  "serve", c16_serve;
+  "partners", c16_partners;
+  "bcast", c16_bcast;
   "wire", c09_wire;
   "decode", c09_decode;
   "pack", c09_pack;
